@@ -17,7 +17,7 @@ from fractions import Fraction
 
 import numpy as np
 
-from harness import common
+from harness import common, numeric
 
 LEVEL = "proof"
 
@@ -365,7 +365,12 @@ def run(ctx):
         "oracle limits and periods transcribed from the docstrings/constants of the source: " +
         ", ".join("%s +-%s deg / %s s" % (k, v[2], float(v[3])) for k, v in DOC.items()),
     ]
+    src, _names = numeric.regen_ast(ctx, "instruments", "the constants of amsua, mhs, hirs4, atms, mwhs2 and avhrr, evaluated exactly from the "
+                                    "source text; the formulas that combine them stay the hand templates",
+                                    optional=True)
     ctx.build_props("props/C19.v")
+    if src is not None:
+        ctx.build_props("props/C19_source.v")
     cases = plan(ctx)
     # batches bounded by the number of distinct model cells
     batches, cur, cells = [], [], 0
